@@ -56,14 +56,14 @@ def oracle_toy(cfg, x):
     return check_complete(x, imf, cfg[14] / 2, capped, bool(cfg[5]))
 
 
-def oracle_real(x, sift_thresh, imf_opts, envelope_opts, extrema_opts):
+def oracle_real(x, sift_thresh, imf_opts, envelope_opts, extrema_opts, dtype=None):
     from emd import sift
-    x = np.asarray(x, dtype=float)
+    x_impl, x = siftcore.as_dtype(x, dtype)
     with warnings.catch_warnings():
         warnings.simplefilter('ignore')
         try:
-            with common.time_limit(40):
-                imf = sift.sift(x, sift_thresh=sift_thresh, imf_opts=imf_opts, envelope_opts=envelope_opts, extrema_opts=extrema_opts)
+            with common.time_limit(15):
+                imf = sift.sift(x_impl, sift_thresh=sift_thresh, imf_opts=imf_opts, envelope_opts=envelope_opts, extrema_opts=extrema_opts)
         except common.Timeout:
             return [], 'timeout'
         except Exception as e:
@@ -112,11 +112,14 @@ def run(ctx):
             bad.append((inp, got, exp))
     ctx.sample(dict(cfg=cases[0][0], signal=cases[0][1]))
     # ---- real numerics
-    nsig = 64 if ctx.quick() else 2400
+    nsig = 48 if ctx.quick() else 2400
     for fam, x in siftcore.real_signals(ctx.seed + 1, nsig, 16, 220):
         imf_opts, envelope_opts, extrema_opts = siftcore.real_opts(ctx.rng)
         thr = ctx.rng.choice([1e-8, 1e-8, 1e-3, 0.5])
-        fails, path = oracle_real(x, thr, imf_opts, envelope_opts, extrema_opts)
+        dt = ctx.rng.choice(siftcore.DTYPES)
+        fails, path = oracle_real(x, thr, imf_opts, envelope_opts, extrema_opts, dtype=dt)
+        if dt:
+            ctx.hist['dtype-' + dt] += 1
         if path == 'timeout':
             ctx.discarded += 1
             continue
@@ -125,7 +128,7 @@ def run(ctx):
         for f in fails[:1]:
             ctx.problem('impl-violation', 'sift', f,
                         input=dict(kind='real', signal=[float(v) for v in x], sift_thresh=thr, imf_opts=imf_opts,
-                                   envelope_opts=envelope_opts, extrema_opts=extrema_opts), tags=dict(mode='real', family=fam))
+                                   envelope_opts=envelope_opts, extrema_opts=extrema_opts, dtype=dt), tags=dict(mode='real', family=fam))
     if bad and not any(p['kind'] == 'impl-violation' for p in ctx.problems):
         inp, got, exp = bad[0]
         ctx.problem('correspondence-break', 'sift(toy)', 'model and implementation differ (%d disagreeing cases)' % len(bad), input=inp,
@@ -135,7 +138,7 @@ def run(ctx):
 def replay(rec):
     i = rec['input']
     if i.get('kind') == 'real':
-        f, _ = oracle_real(np.array(i['signal']), i['sift_thresh'], i['imf_opts'], i['envelope_opts'], i['extrema_opts'])
+        f, _ = oracle_real(np.array(i['signal']), i['sift_thresh'], i['imf_opts'], i['envelope_opts'], i['extrema_opts'], dtype=i.get('dtype'))
     else:
         f, _ = oracle_toy(i['cfg'], i['signal'])
         if not f and rec.get('expected') is not None:
